@@ -1,6 +1,7 @@
 package props
 
 import (
+	"bytes"
 	"fmt"
 	"io"
 	"math/rand"
@@ -471,8 +472,70 @@ func c17dirSiblings(env *core.Env, cs c17case, res *core.CaseResult) {
 	}
 }
 
+// c17bigUnlinked: two handles on a file of 1.5 MiB; the contents are read through A, the name goes away (removed, or
+// renamed), A is closed. B is a handle of its own: it still reads the file's bytes, at its own position, and the
+// renamed file still holds them.
+func c17bigUnlinked(env *core.Env, cs c17case, res *core.CaseResult) {
+	sub, err := newPopulated(env, cs.Subject, c17items)
+	if err != nil {
+		res.Inconclusive = "setup: " + err.Error()
+		return
+	}
+	defer sub.cleanup()
+	const size = 3 << 19
+	content := bytes.Repeat([]byte("q"), size)
+	renamed := cs.Seed%80 >= 40
+	viol := func(what, detail string) {
+		res.Violate(fmt.Sprintf("C17|%s|siblings|H.Close|%s", subjKind17(cs.Subject), what), fmt.Sprintf("[%s] a 1.5 MiB file, handles A and B; everything read through A, the name %s, A closed: %s", cs.Subject, map[bool]string{true: "renamed", false: "removed"}[renamed], detail), map[string]any{"subject": cs.Subject, "renamed": renamed})
+	}
+	if err := hackpadfs.WriteFullFile(sub.fs, "big", content, 0o644); err != nil {
+		return
+	}
+	a, err1 := hackpadfs.OpenFile(sub.fs, "big", os.O_RDWR, 0)
+	b, err2 := hackpadfs.OpenFile(sub.fs, "big", os.O_RDONLY, 0)
+	if err1 != nil || err2 != nil {
+		return
+	}
+	defer func() { _ = b.Close() }()
+	_, _ = io.ReadAll(a)
+	buf := make([]byte, 64)
+	_, _ = hackpadfs.ReadAtFile(b, buf, 10) // B has looked at the file as well
+	if renamed {
+		err = hackpadfs.Rename(sub.fs, "big", "big2")
+	} else {
+		err = hackpadfs.Remove(sub.fs, "big")
+	}
+	if err != nil {
+		_ = a.Close()
+		return
+	}
+	if cerr := a.Close(); cerr != nil {
+		viol("close-failed", "Close of A failed: "+cerr.Error())
+		return
+	}
+	res.Count("big_unlinked_pairs", 1)
+	n, rerr := hackpadfs.ReadAtFile(b, buf, 1<<20)
+	if n != 64 || (rerr != nil && rerr != io.EOF) || !bytes.Equal(buf[:n], content[:64]) {
+		viol("other-handle-lost-its-contents", fmt.Sprintf("B.ReadAt(64 bytes at 1 MiB) returns n=%d, %v", n, rerr))
+		return
+	}
+	if info, serr := b.Stat(); serr != nil || info.Size() != size {
+		viol("other-handle-lost-its-contents", fmt.Sprintf("B.Stat says %v, %v (the file has %d bytes)", info, serr, size))
+		return
+	}
+	if renamed {
+		if got, gerr := hackpadfs.ReadFile(sub.fs, "big2"); gerr != nil || len(got) != size {
+			viol("renamed-file-lost-its-contents", fmt.Sprintf("the renamed file holds %d bytes (err %v), it had %d", len(got), gerr, size))
+		}
+	}
+}
+
 // c17lifecycle: writing through a handle opened before Remove/Rename never makes the old name exist again.
 func c17lifecycle(env *core.Env, cs c17case, res *core.CaseResult) {
+	if cs.Seed%40 == 7 {
+		c17bigUnlinked(env, cs, res)
+		return
+	}
 	sub, err := newPopulated(env, cs.Subject, c17items)
 	if err != nil {
 		res.Inconclusive = "setup: " + err.Error()
@@ -520,6 +583,9 @@ func c17lifecycle(env *core.Env, cs c17case, res *core.CaseResult) {
 				if st.K == "H.Truncate" && st.N == 777 {
 					opName = "H.Truncate(same-size)" // a truncation to the size the file has: nothing changes, nothing is written
 				}
+				if (st.K == "H.Write" || st.K == "H.WriteAt") && st.Data == "" {
+					opName = st.K + "(empty)" // writing nothing changes nothing and stores nothing
+				}
 				res.Violate(fmt.Sprintf("C17|%s|lifecycle|%s|%s|%s", subjKind17(cs.Subject), opName, sit, what),
 					fmt.Sprintf("[%s] after %s: %q exists=%v, os exists=%v", cs.Subject, st, name, serr == nil, rerr == nil), map[string]any{"subject": cs.Subject, "script": fsx.HistoryString(script)})
 				return false
@@ -554,7 +620,20 @@ func c17lifecycle(env *core.Env, cs c17case, res *core.CaseResult) {
 			// variant: after the name is gone the old handles are only read, so that the history is not cut short by
 			// the known finding about writes (F20) and handle validity after Remove/Rename is compared with os.File
 			slot := r.Intn(nh)
-			switch r.Intn(5) {
+			switch r.Intn(6) {
+			case 5:
+				// writing nothing: like the same-size truncation, a call that has nothing to store
+				st = fsx.Step{K: []string{"H.Write", "H.WriteAt"}[r.Intn(2)], Slot: slot, Data: "", Off: int64(r.Intn(4))}
+				sr, _ := do(st)
+				res.Count("empty_writes_after_unlink", 1)
+				if sr.Panic != "" {
+					res.Violate(fmt.Sprintf("C17|%s|lifecycle|%s|panic", cs.Subject, st.K), fmt.Sprintf("[%s] %s panicked: %s", cs.Subject, st, sr.Panic), map[string]any{"script": fsx.HistoryString(script)})
+					return
+				}
+				if !namesFollow(st, "after-unlink") {
+					return
+				}
+				continue
 			case 4:
 				// a truncation to exactly the size the handle sees (learnt by seeking to the end): a call that changes nothing
 				end, _ := do(fsx.Step{K: "H.Seek", Slot: slot, Off: 0, Whence: io.SeekEnd})
